@@ -95,7 +95,7 @@ theorem pinv_pstate0 (opts : Opts) (plug : Plug) : PInv B (pstate0 B opts plug) 
     exact hrow m hm a ha
 
 /-- **The state with which the run with the new modules enters the augment loop.** -/
-theorem pstate0_ext {plug : Plug} {opts : Opts} (hconv : ConvAgree B X opts plug) :
+theorem pstate0_ext {plug : Plug} {opts : Opts} (hconv : ConvAgreeTop B X opts plug) :
     ∃ G P, NewTrees ds G ∧ PNew ds P ∧ pstate0 X opts plug = lift G P (pstate0 B opts plug) := by
   obtain ⟨G, hG, hc⟩ := (tstate_ext h hconv).cache
   obtain ⟨GA, hGA, ha⟩ := (tstate_ext h hconv).augs
@@ -256,7 +256,7 @@ theorem rounds_lift {P : List (Nat × List Entry)} (hP : PNew ds P) (fuel n : Na
   exact ⟨key.1, key.2.1, key.2.2.1, key.2.2.2⟩
 
 /-- **The two runs agree before the deviation stage, whatever augments `B` has.** -/
-theorem preDev_ext_aug {plug : Plug} {opts : Opts} (hconv : ConvAgree B X opts plug) :
+theorem preDev_ext_aug {plug : Plug} {opts : Opts} (hconv : ConvAgreeTop B X opts plug) :
     ∃ G, NewTrees ds G ∧ (preDev X opts plug).forest = ext G (preDev B opts plug).forest := by
   obtain ⟨G, P, hG, hP, h0⟩ := pstate0_ext h hconv
   have hinv0 := pinv_pstate0 (B := B) opts plug
